@@ -330,9 +330,16 @@ def r11_branch_input_layout(repo: Repo, rep):
                     if isinstance(t, ast.Name) and k < 3:
                         shapes[t.id] = ("F", "L", "C")[k]
 
-        def atom_ax(n, pname=pname):
+        holder = {}
+
+        def atom_ax(n, pname=pname, fw=fw, holder=holder):
             if isinstance(n, ast.Name) and n.id == pname:
                 return [("F",), ("L",), ("C",)]
+            if isinstance(n, ast.Name):
+                # a temporary bound once (the batch name itself may be re-bound to its raw tensor: same axes)
+                defs = [a.value for a in ast.walk(fw.node) if isinstance(a, ast.Assign) and len(a.targets) == 1 and isinstance(a.targets[0], ast.Name) and a.targets[0].id == n.id]
+                if len(defs) == 1 and "ev" in holder:
+                    return holder["ev"].ev(defs[0])
             return None
 
         def size_role(n, e, shapes=shapes):
@@ -345,7 +352,8 @@ def r11_branch_input_layout(repo: Repo, rep):
                 arg = c.args[0]
                 # the batch name is re-bound to its raw tensor first: same axes
                 try:
-                    axes = AxesEval(atom_ax, size_role).ev(arg)
+                    holder["ev"] = AxesEval(atom_ax, size_role)
+                    axes = holder["ev"].ev(arg)
                     rep.check(R, axes == [("F",), ("C",), ("L",)], fw.site(c), fw.fq, "the conv net receives (functions, components, sensors): axes 1 and 2 of the batch exchanged", f"axes {axes}", f"conv input axes {axes}")
                 except Scrambled as err:
                     rep.violation(R, fw.site(c), fw.fq, "the conv net receives (functions, components, sensors): axes 1 and 2 of the batch exchanged", str(err)[:200], "conv input scrambled")
